@@ -256,6 +256,56 @@ def run(res, ctx):
                     else:
                         res.violation("failing-input", "%s on a malformed %s: %s %s" % (name, fn, status, info[:300]),
                                       {"program": name, "file": fn, "input_bytes_hex": content.hex()[:4000], "actual_impl": info})
+        # structured documents of the E*TRADE front end (rendered by the C19 generators: RSU / ESPP / ESO
+        # confirmations with one to three grants, pre- and post-2023 trade confirmations), then damaged the
+        # way a text extraction damages them: lines dropped, duplicated, swapped, cut, a section repeated
+        try:
+            import etrade as E
+            import props.c19 as c19
+            docs = []
+            d0 = E.datetime.date(2024, 2, 20).toordinal()
+            for ng in (1, 2, 3):
+                docs.append(("eso", E.render({"kind": "eso", "style": ng % 2, "rec": dict(
+                    sym="FOO", date=d0, extype="Same-Day Sale", shares_sold="30",
+                    grants=[dict(num=str(1234 + i), fmv="105.61", shares="10", sale="106.36", fee="4.17") for i in range(ng)])})))
+            for c in c19.corpus()[:12] + [c19.gen_case(rng) for _ in range(10 if tier == "quick" else 80)]:
+                for f in c["files"]:
+                    docs.append((f["kind"], E.render(f)))
+        except Exception as e:   # the generators belong to another group: their absence must not hide C05's own findings
+            docs = []
+            st["structured-docs-unavailable"] += 1
+        for k in range(120 if tier == "quick" else 1500):
+            if not docs or not os.path.exists(os.path.join(bindir, "etrade-plan-pdf-tx-extract")):
+                break
+            kind, text = rng.choice(docs)
+            lines = text.split("\n")
+            for _ in range(rng.choice([1, 1, 2, 3])):
+                if not lines:
+                    break
+                m = rng.random()
+                i = rng.randrange(len(lines))
+                if m < 0.4:
+                    del lines[i]
+                elif m < 0.55:
+                    lines.insert(i, lines[i])
+                elif m < 0.7:
+                    j = rng.randrange(len(lines))
+                    lines[i], lines[j] = lines[j], lines[i]
+                elif m < 0.8:
+                    lines[i] = lines[i][: rng.randint(0, max(0, len(lines[i]) - 1))]
+                elif m < 0.9:
+                    lines = lines[:i]
+                else:
+                    j = rng.randrange(len(lines))
+                    lines[i:i] = lines[min(i, j):max(i, j)]
+            content = "\n".join(lines).encode()
+            args = rng.choice([[], [], ["--extract-only"], ["--pretty"]])
+            status, info, argv = run_cli(bindir, "etrade-plan-pdf-tx-extract", args, [("doc.txt", content)], k)
+            st["evaluations"] += 1
+            st["etrade-structured-%s-%s" % (kind, status)] += 1
+            if status in ("panic", "timeout"):
+                res.violation("failing-input", "etrade-plan-pdf-tx-extract %s on a damaged %s confirmation: %s %s" % (" ".join(args), kind, status, info[:300]),
+                              {"program": "etrade-plan-pdf-tx-extract", "args": args, "input": content.decode("utf-8", "replace"), "actual_impl": info})
     # ---- known findings: replay the witnesses
     for k in known:
         w = k.get("witness", {})
